@@ -65,6 +65,21 @@ def observe(parts, scratch, opt):
     findings = [[sevs.index(r.severity) for r in check_safety(p).results] for p in sp]
     lib_sev = [check_safety(p).severity.name for p in sp]
     obs = {"findings": findings, "lib": lib_sev, "n": len(parts)}
+    # the severity a report carries does not depend on how verbose the report is asked to be
+    vs, vj = [], []
+    for p in sp:
+        row, jrow = [], []
+        for v in sevs:
+            row.append(check_safety(p).to_dict(v).get("severity"))
+            jp = os.path.join(scratch, "verbosity.json")
+            if os.path.exists(jp):
+                os.remove(jp)
+            check_safety(p, verbosity=v, json_output_path=jp)
+            docs = parse_json_docs(open(jp).read()) if os.path.exists(jp) else []
+            jrow.append(docs[0].get("severity") if len(docs) == 1 else f"<{len(docs)} documents>")
+        vs.append(row)
+        vj.append(jrow)
+    obs["verbosity_dict"], obs["verbosity_json"] = vs, vj
     obs["ils"] = bool(fickling.is_likely_safe(path))
     loader = []
     for thr in sevs:
@@ -125,6 +140,12 @@ def oracle(obs):
         return f"CLI exit {obs['cli_rc']}"
     if obs["cli_json"] != [DOC[r] for r in ranks]:
         return f"JSON report severities {obs['cli_json']} vs {[DOC[r] for r in ranks]}"
+    for i, r in enumerate(ranks):
+        for key in ("verbosity_dict", "verbosity_json"):
+            row = (obs.get(key) or [[]] * len(ranks))[i]
+            if any(x != DOC[r] for x in row):
+                return (f"{key}: pickle {i} has severity {DOC[r]} but its report says {row} for verbosity "
+                        f"= each Severity in definition order")
     return None
 
 
@@ -223,6 +244,11 @@ def main(tier, seed):
             parts, labels, opt = meta[0]
             chk.sample({"labels": labels, "opt": opt, "findings": obs_list[0]["findings"],
                         "faces@LIKELY_SAFE": real_faces_line(obs_list[0], 0)})
+        # the property itself, model-free, on every observed file (incl. the report's severity under every
+        # verbosity, which the face lines sent to the model do not carry)
+        orc_bad = [w for w in (oracle(o) for o in obs_list) if w]
+        chk.oblige(f"property oracle (model-free) holds on all {len(obs_list)} observed files", not orc_bad,
+                   json.dumps(orc_bad[:3]))
         # crashes of a face are failures of the correspondence too
         crashes = [c for c in bad_cases if c["kind"] == "faces-crash"]
         if crashes:
